@@ -18,7 +18,7 @@ CHECKS = {
     "C02": ("vhist", "model_checking", "explicit-state BFS over the real cipher object to a fixpoint, model = absolute position + scalar keystream",
             "6/C02",
             "All reachable states of the real cipher object under a menu of every seek position (7 integer types), every request length and current_pos inside three position windows are explored to a fixpoint; every transition is an implementation call compared with the position model, in release and overflow-checked builds.",
-            "window restriction (positions near 0, 2^38 and 2^64 bytes); quick tier merges states that differ only in dead bytes of the block buffer (argument in DESIGN.md), thorough uses the exact key",
+            "window restriction (positions near 0, 2^38 and 2^64 bytes); quick tier merges states that differ only in dead bytes of the block buffer for deduplication only (stored states keep their real bytes), thorough uses the exact key; needs the public state fields of the cipher objects (harness feature `internals`)",
             True),
     "C03": ("venum", "exploration", "complete enumeration of the 13-point backend/dispatch configuration lattice, differential against the reference models and across points",
             "6/C03",
@@ -97,7 +97,7 @@ CHECKS = {
             True),
     "C18": ("vsched", "model_checking", "exhaustive enumeration of all call-granularity interleavings of 3-4 threads in cold subprocesses under a baton scheduler, and of instance interleavings in one thread",
             "6/C18",
-            "Every interleaving of the threads' calls (1680 / 2520 schedules per scenario, 8 scenarios) is executed in a fresh process with real OS threads under a baton scheduler, so each lazy global is first touched at every position by every thread, and again on a single thread; per-thread results must equal the reference model. A free-running supplement is labelled sampling.",
+            "Every interleaving of the threads' calls (1680 / 2520 schedules per scenario, 11 scenarios) is executed in a fresh process with real OS threads under a baton scheduler, so each lazy global is first touched at every position by every thread, and again on a single thread; per-thread results must equal the reference model. Two supplements are labelled as such and never counted as coverage: free-running repeated threads (sampling) and a ThreadSanitizer build of the thread bodies (race detector).",
             "switches only between API calls: pre-emption inside Once / CPUID caching / a compression is out of reach (DESIGN.md section 10)",
             True),
     "C19": ("venum", "exploration", "bounded-exhaustive enumeration of every public method x operand alphabet x all rotation amounts x all lane indices against wrapping scalar arithmetic, in two build profiles",
